@@ -185,8 +185,6 @@ def semIdent : Yaml → Doc → Tri
 
 end
 
-namespace Tau.C02
-open Tau
 
 theorem solve_wrapNot (E : RegexEngine) (K : IdentK) (d : Doc) (misc : Option ModSym) (x : Expr) :
     solveG E K d (wrapNot misc x) = notTri misc (solveG E K d x) := by
